@@ -795,6 +795,100 @@ fn copies_probe(rep: &mut Report) {
     }
 }
 
+/// Searches started INSIDE a search (a custom function that compiles and searches through `ctx.runtime`, or calls
+/// a built-in with a context of its own) while the outer search is in the middle of a by-function, a map, a filter:
+/// the outer search continues as if nothing had happened. And the very first searches of a brand-new thread, whose
+/// only non-ASCII text comes from `\u` escapes in an all-ASCII expression or out of a custom function: results are
+/// known by construction and are the same before and after the thread has seen non-ASCII documents.
+fn nested_and_first_searches_probe(rep: &mut Report) {
+    let mut rt = Runtime::new();
+    rt.register_builtin_functions();
+    rt.register_function("weight", Box::new(|a: &[Rcvar], ctx: &mut Context<'_>| ctx.runtime.compile("length(tags)")?.search(a[0].clone())));
+    rt.register_function("weight2", Box::new(|a: &[Rcvar], ctx: &mut Context<'_>| {
+        let inner = ctx.runtime.compile("sort_by(@, &@)[-1]")?;
+        let tags = a[0].get_field("tags");
+        let top = inner.search(tags)?;
+        let mut own = Context::new("length(@)", ctx.runtime);
+        let f = ctx.runtime.get_function("not_null").expect("built-in");
+        f.evaluate(&[top, Rcvar::new(jmespath::Variable::Number(serde_json::Number::from(0)))], &mut own)
+    }));
+    rt.register_function("mk", Box::new(|a: &[Rcvar], _: &mut Context<'_>| Ok(Rcvar::new(jmespath::Variable::String(if a.is_empty() { "a\u{e9}".to_string() } else { "\u{e9}t\u{e9}".to_string() })))));
+    let rt: &'static Runtime = Box::leak(Box::new(rt));
+    let doc = json!({"items": [{"name": "a", "tags": [1]}, {"name": "b", "tags": []}, {"name": "c", "tags": [1, 2, 3]}, {"name": "d", "tags": [5, 2]}]});
+    let nested: Vec<(&str, &str)> = vec![
+        ("sort_by(items, &weight(@))[*].name", "ok:[\"b\",\"a\",\"d\",\"c\"]"),
+        ("max_by(items, &weight(@)).name", "ok:\"c\""),
+        ("min_by(items, &weight(@)).name", "ok:\"b\""),
+        ("map(&weight(@), items)", "ok:[1,0,3,2]"),
+        ("items[?weight(@) > `1`].name", "ok:[\"c\",\"d\"]"),
+        ("sort_by(items, &weight2(@))[*].name", "ok:[\"b\",\"a\",\"c\",\"d\"]"),
+        ("sort_by(items, &weight(@))[*].weight(@)", "ok:[0,1,2,3]"),
+        ("items[*].[name, weight(@), weight2(@)] | [2]", "ok:[\"c\",3,3]"),
+        ("sort_by(items, &sum([weight(@), weight2(@)]))[-1].name", "ok:\"d\""),
+        ("join('', sort_by(items, &weight(@))[*].name) == join('', sort_by(items, &length(tags))[*].name)", "ok:true"),
+    ];
+    for (text, want) in nested.iter() {
+        for input_kind in 0..2 {
+            rep.evaluations += 1;
+            let got = guarded(|| rt.compile(text).and_then(|e| if input_kind == 0 { e.search(rcvar_of(&doc)) } else { e.search(doc.clone()) })).map(|r| fingerprint(&r)).unwrap_or_else(|p| format!("panic:{}", p));
+            if got == *want {
+                rep.count("search_inside_a_search_leaves_the_outer_one_alone");
+            } else {
+                rep.violation("C13/result-depends-on-history/search-started-inside-a-search", json!({"expression": text, "document": doc, "known_by_construction": want, "got": got,
+                    "custom_functions": "weight(x) = a nested compile+search of length(tags) through ctx.runtime; weight2(x) = nested sort_by search plus a built-in called with a context of its own"}));
+            }
+        }
+    }
+    // first searches of a new thread
+    let firsts: Vec<(&'static str, Value, &'static str)> = vec![
+        ("length(`\"\\u00e9t\\u00e9\"`)", json!(1), "ok:3"),
+        ("reverse(`\"a\\u00e9\"`)", json!(1), "ok:\"\u{e9}a\""),
+        ("length(mk(`1`))", json!(1), "ok:3"),
+        ("reverse(mk())", json!(1), "ok:\"\u{e9}a\""),
+        ("length(\"k\\u00e9\")", json!({"k": 1}), "err:type"),
+        ("[length(`\"\\u00e9\"`), length('abc'), length(`\"\\ud83d\\ude00\"`)]", json!(null), "ok:null"),
+        ("[length(`\"\\u00e9\"`), length('abc'), length(`\"\\ud83d\\ude00\"`)]", json!(0), "ok:[1,3,1]"),
+        ("ends_with(`\"x\\u00e9\"`, mk())", json!(1), "ok:false"),
+        ("contains(mk(`1`), `\"\\u00e9\"`)", json!(1), "ok:true"),
+        ("sort([mk(), `\"a\\u00e8\"`, 'az'])", json!(1), "ok:[\"az\",\"a\u{e8}\",\"a\u{e9}\"]"),
+    ];
+    for order in 0..3 {
+        let firsts = firsts.clone();
+        let h = std::thread::spawn(move || {
+            let mut out = vec![];
+            let run_all = |out: &mut Vec<(String, String, String, &'static str)>, phase: &'static str| {
+                for (text, d, want) in firsts.iter() {
+                    let got = guarded(|| rt.compile(text).and_then(|e| e.search(rcvar_of(d)))).map(|r| match &r { Err(e) => format!("err:{}", err_class(e)), _ => fingerprint(&r) }).unwrap_or_else(|p| format!("panic:{}", p));
+                    out.push((text.to_string(), got, want.to_string(), phase));
+                }
+            };
+            if order == 1 {
+                let _ = rt.compile("city").map(|e| e.search(rcvar_of(&json!({"city": "Z\u{fc}rich"}))).is_ok());
+            }
+            if order == 2 {
+                let _ = rt.compile("'\u{e9}'").map(|e| e.search(rcvar_of(&json!(1))).is_ok());
+            }
+            run_all(&mut out, ["first searches of a new thread", "after a document with non-ASCII text on this thread", "after an expression with non-ASCII text on this thread"][order]);
+            let _ = rt.compile("city").map(|e| e.search(json!({"city": "Z\u{fc}rich"})).is_ok());
+            run_all(&mut out, "again, after a typed document with non-ASCII text");
+            out
+        });
+        match h.join() {
+            Ok(out) => {
+                for (text, got, want, phase) in out {
+                    rep.evaluations += 1;
+                    if got == want {
+                        rep.count("first_searches_of_a_thread_ok");
+                    } else {
+                        rep.violation("C13/result-depends-on-history/first-searches-of-a-thread", json!({"expression": text, "evaluated": phase, "known_by_construction": want, "got": got}));
+                    }
+                }
+            }
+            Err(_) => rep.harness_error("the first-searches thread died".to_string()),
+        }
+    }
+}
+
 pub fn run(args: &Args) {
     let mut rep = Report::new("C13");
     // first library use of this process: nothing has touched any runtime yet
@@ -809,6 +903,9 @@ pub fn run(args: &Args) {
     }
     if args.shard == 2 % args.shards {
         copies_probe(&mut rep);
+    }
+    if args.shard == 3 % args.shards {
+        nested_and_first_searches_probe(&mut rep);
     }
     if args.shard == 1 % args.shards {
         after_failures_probe(&mut rep);
